@@ -212,5 +212,5 @@ def templates():
         for sh, group in (([2, 3, 2], [0, 2]), ([2, 3, 2], [2, 0]), ([2, 3, 2], [1, 0]), ([2, 2], [1, 0]), ([2, 1, 2, 3], [3, 0]), ([2, 2, 2, 2], [0, 3, 2])):
             if func.startswith('arg') and len(sh) == 4:
                 continue
-            add('tuple-%s-%s-g%s' % (func, 'x'.join(map(str, sh)), ''.join(map(str, group))), 'tuple_reduce', cost=0.3, shape=sh, group=group, func=func)
+            add('tuple-%s-%s-g%s' % (func, 'x'.join(map(str, sh)), ''.join(map(str, group))), 'tuple_reduce', cost=0.3 if not func.startswith('arg') else 15, shape=sh, group=group, func=func)
     return ts
